@@ -136,7 +136,15 @@ func observeC08(r *astRun) c08Obs {
 	ft := map[int]fileTags{}
 	for _, en := range allEntities(r) {
 		if f, ok := en.e.(pgs.File); ok {
-			ft[en.ref.File] = fileTags{tagOf(f.SyntaxSourceCodeInfo()), tagOf(f.PackageSourceCodeInfo())}
+			st := tagOf(f.SyntaxSourceCodeInfo())
+			// the file entity's own SourceCodeInfo() is documented as the syntax statement's: a file
+			// that answers something else there reports -3, and the syntax statement once more
+			if own := tagOf(f.SourceCodeInfo()); own != st {
+				st = -3
+			} else if again := tagOf(f.SyntaxSourceCodeInfo()); again != st {
+				st = -4
+			}
+			ft[en.ref.File] = fileTags{st, tagOf(f.PackageSourceCodeInfo())}
 			continue
 		}
 		o.Infos = append(o.Infos, []interface{}{en.ref, tagOf(en.e.SourceCodeInfo())})
